@@ -122,13 +122,34 @@ pub(crate) fn load_seq_index_v1(path: &Path) -> io::Result<Option<Vec<SeqSeekInd
     Ok(Some(entries))
 }
 
-pub(crate) fn best_offset_for_seq(entries: &[SeqSeekIndexEntryV1], target_seq: u64) -> u64 {
+fn best_entry_for_seq(
+    entries: &[SeqSeekIndexEntryV1],
+    target_seq: u64,
+) -> Option<&SeqSeekIndexEntryV1> {
     // Entries are monotonic by seq. Find the last entry with seq <= target_seq.
     match entries.binary_search_by(|entry| entry.seq.cmp(&target_seq)) {
-        Ok(idx) => entries[idx].offset,
-        Err(0) => 0,
-        Err(idx) => entries[idx.saturating_sub(1)].offset,
+        Ok(idx) => entries.get(idx),
+        Err(0) => None,
+        Err(idx) => entries.get(idx.saturating_sub(1)),
     }
+}
+
+/// Offset to start a forward scan for `target_seq` from (0 when no entry is at or below it).
+///
+/// Only the last entry of an index is validated when it is loaded, so the entry that is actually
+/// used is checked here against the sidecar line it points at: an index whose entry does not point
+/// at the start of the frame it names is an error (callers fall back), never a shorter answer.
+pub(crate) fn best_offset_for_seq(
+    entries: &[SeqSeekIndexEntryV1],
+    target_seq: u64,
+    sidecar_path: &Path,
+    continuity_id: &str,
+) -> io::Result<u64> {
+    let Some(entry) = best_entry_for_seq(entries, target_seq) else {
+        return Ok(0);
+    };
+    validate_seq_index_against_sidecar(std::slice::from_ref(entry), sidecar_path, continuity_id)?;
+    Ok(entry.offset)
 }
 
 pub(crate) fn validate_seq_index_against_sidecar(
